@@ -545,3 +545,62 @@ func kindSetString(m map[int64]bool) string {
 	}
 	return "{" + strings.Join(names, ",") + "}"
 }
+
+
+// kindSwitchTop walks up the dominator tree from b through blocks that end in
+// a comparison of one and the same value with a constant (the lowering of a
+// `switch x { case K1, K2: ... }`), and returns the topmost such block and the
+// compared value. Path conditions taken from there only mention that switch.
+func kindSwitchTop(b *ssa.BasicBlock) (*ssa.BasicBlock, ssa.Value) {
+	var top *ssa.BasicBlock
+	var subj ssa.Value
+	for d := b.Idom(); d != nil; d = d.Idom() {
+		if len(d.Instrs) == 0 {
+			break
+		}
+		iff, ok := d.Instrs[len(d.Instrs)-1].(*ssa.If)
+		if !ok {
+			if top != nil {
+				break
+			}
+			continue
+		}
+		bo, ok := iff.Cond.(*ssa.BinOp)
+		if !ok || bo.Op != token.EQL {
+			if top != nil {
+				break
+			}
+			continue
+		}
+		if _, isC := constInt(bo.Y); !isC {
+			if top != nil {
+				break
+			}
+			continue
+		}
+		if subj == nil {
+			subj = bo.X
+		} else if bo.X != subj {
+			break
+		}
+		top = d
+	}
+	return top, subj
+}
+
+// kindsAtSwitch returns the constant cases of the innermost constant switch
+// under which block b lies.
+func kindsAtSwitch(b *ssa.BasicBlock) (ssa.Value, map[int64]bool) {
+	top, subj := kindSwitchTop(b)
+	if top == nil {
+		return nil, nil
+	}
+	pb := &predBuilder{name: func(v ssa.Value) string {
+		if v == subj {
+			return "switch.Kind(subject)"
+		}
+		return ""
+	}}
+	g := pb.pathCond(top, b)
+	return subj, kindsWhere(g, "switch.Kind(subject)")
+}
